@@ -568,7 +568,9 @@ FINDINGS = {"C20/cyclic-not-shortest": cyclic_not_shortest}
 # ------------------------------------------------------------------ registrations
 
 _proc = dict(counter=0, bodies=set())
-BUILTIN = ["EME2000", "MOD", "TOD", "TEME", "PEF", "ITRF", "TIRF", "CIRF", "GCRF", "G50"]
+# CIRF and GCRF are reached through the IAU-2010 series (12 ms per evaluation, not memoised): they
+# appear in one recorded conversion each, not in the random picks
+BUILTIN = ["EME2000", "MOD", "TOD", "TEME", "PEF", "ITRF", "TIRF", "G50"]
 
 
 @st.composite
@@ -581,8 +583,8 @@ def reg_case(draw, shard, tier):
             ops.append(dict(op="station", lat=d.u(-89.0, 89.0), lon=d.u(-180.0, 180.0), alt=d.u(0.0, 3000.0),
                             parent=d.pick("ITRF", "ITRF", "TIRF", "PEF"), equatorial=d.int(0, 5) == 0))
         elif kind == "orbit":
-            ops.append(dict(op="orbit", orientation=d.pick(None, "QSW", "TNW"), frame=d.pick("EME2000", "GCRF", "MOD"),
-                            parent=d.pick("EME2000", "EME2000", "GCRF", "TOD"),
+            ops.append(dict(op="orbit", orientation=d.pick(None, "QSW", "TNW"), frame=d.pick("EME2000", "EME2000", "MOD", "TOD", "MOD", "EME2000", "TOD", "GCRF"),
+                            parent=d.pick("EME2000", "EME2000", "MOD", "TOD"),
                             a=d.u(6.8e6, 4.3e7), e=d.u(0.0, 0.3), i=d.u(0.05, 3.0), raan=d.u(0, 6.2), argp=d.u(0, 6.2),
                             nu=d.u(0, 6.2)))
         elif kind == "attached":
@@ -590,7 +592,7 @@ def reg_case(draw, shard, tier):
             # the reference is a state vector / orbit EXPRESSED IN that frame, as a radar would give it
             ops.append(dict(op="attached", base=d.int(0, 999), prefer_station=d.int(0, 2) > 0,
                             ref=d.pick("sv", "sv", "sv_as_frame", "orbit"), orientation=d.pick(None, None, None, "QSW", "TNW"),
-                            parent=d.pick("EME2000", "GCRF"),
+                            parent=d.pick("EME2000", "TOD"),
                             rel=[d.signed(1e3, 1e6) for _ in range(3)] + [d.signed(1.0, 3e3) for _ in range(3)],
                             point=[d.signed(1.0, 1e5) for _ in range(3)] + [d.signed(1e-2, 1e2) for _ in range(3)]))
         else:
@@ -647,7 +649,7 @@ def check_registrations(case):
         for _ in range(k):
             src = known[next(picks) % len(known)]
             dst = known[next(picks) % len(known)]
-            if (src, dst) not in table and len(table) < 30:
+            if (src, dst) not in table and len(table) < 20:
                 table[(src, dst)] = conv(src, dst)[0]
 
     def scale_of(*vecs):
@@ -680,15 +682,17 @@ def check_registrations(case):
 
     def after_conversion(what):
         """After every single conversion: every stored offset, and the recorded conversions that touch a
-        generated frame (at most 6, the latest first; the whole table is compared after every
+        generated frame (the latest 3; the whole table is compared after every
         registration and at the end - 30 x 2 conversions after each of ~250 conversions was 5 min a case)."""
         nconv[0] += 1
         offsets_intact(what)
         gen = {g[0] for g in generated}
-        hot = [k for k in table if k[0] in gen or k[1] in gen][-6:]
+        hot = [k for k in table if k[0] in gen or k[1] in gen][-3:]
         table_intact(what, hot)
 
     record(6)
+    table[("EME2000", "GCRF")] = conv("EME2000", "GCRF")[0]
+    table[("CIRF", "ITRF")] = conv("CIRF", "ITRF")[0]
     graph_audit(orient.EME2000, "orientation")
     graph_audit(center.Earth.node, "center")
     nreg = 0
@@ -745,7 +749,8 @@ def check_registrations(case):
         #     the pre-existing conversions and the stored offsets are still what they were
         if op["op"] in ("attached", "station", "orbit"):
             pt = StateVector(op.get("point", [1000.0, -2000.0, 500.0, 1.0, 2.0, -3.0]), date, "cartesian", name)
-            targets = ["ITRF", "WGS84", "PEF", "TIRF", "EME2000", "TOD"] + [g[0] for g in generated[-4:-1]]
+            targets = ["WGS84" if step % 3 == 2 else "ITRF", "PEF", "TIRF", "EME2000"]
+            targets.append(generated[-2][0] if len(generated) > 1 and step % 2 else "TOD")
             if op["op"] == "attached":
                 targets.insert(0, base)
             for tgt in targets:
@@ -789,7 +794,7 @@ def check_registrations(case):
         # new recorded conversions favour the generated frames (stations above all)
         for g in generated[-3:]:
             for other in ("ITRF", "EME2000"):
-                if len(table) < 30:
+                if len(table) < 20:
                     table.setdefault((other, g[0]), conv(other, g[0])[0])
         record(2)
     offsets_intact("at the end of the history")
@@ -823,6 +828,6 @@ FACETS = [
     Facet("graphs", graph_case, check_graph_case, setup=_setup,
           rule=">= 4 nodes", quick=(8, 500), thorough=(16, 5000)),
     Facet("registrations", reg_case, check_registrations, setup=_setup,
-          rule="at least one registration between two conversions", quick=(16, 8), thorough=(32, 16),
+          rule="at least one registration between two conversions", quick=(16, 6), thorough=(32, 12),
           shrink_quick=False, case_timeout=300),
 ]
